@@ -141,3 +141,24 @@ def messages_writers(src):
     out += _set_eq("census.messages.select", stmts_where("SELECT", "messages", "ch"),
                    {"server.Mailbox.get_messages", "server.Server.get_all_apps"})
     return out
+
+
+def pragmas(src):
+    """C09/C10: the only statements database._initialize_db_connection issues are the two foreign-key
+    PRAGMAs (journal mode and synchronous stay at SQLite's defaults, A8), and foreign keys are enabled"""
+    got = []
+    for qual, db, text, line, meth in sql_statements():
+        if qual.startswith("database.") and text is not None and "PRAGMA" in text.upper():
+            got.append((qual, " ".join(text.split())))
+    want = [("database._initialize_db_connection", "PRAGMA foreign_keys = ON"),
+            ("database._initialize_db_connection", "PRAGMA foreign_key_check")]
+    out = [("census.pragmas", sorted(got) == sorted(want), "found %s" % got)]
+    bad = [(q, t) for q, db, t, l, m in sql_statements() if t is not None and "PRAGMA" in t.upper() and not q.startswith("database.")]
+    out.append(("census.no_pragmas_elsewhere", not bad, "found %s" % bad))
+    return out
+
+
+def send_is_only_emitter(src):
+    """C09/C17: frames reach a client only through WebSocketServer.send (which adds type and server_tx and
+    requires a clean transaction state)"""
+    return _set_eq("census.sendMessage_callers", call_sites("sendMessage"), {"server_websocket.WebSocketServer.send"})
